@@ -1,15 +1,294 @@
-(** C19 — property theorems only.  Each is closed by [exact] of a lemma proved in C19_Proofs.v. *)
-From Coq Require Import ZArith List.
-From LP Require Import Num C19_Model C19_Proofs.
-Local Open Scope Z_scope.
+(** C19 — property theorems only.  Each is closed by [exact] of a lemma proved in C19_Proofs*.v. *)
+From Coq Require Import ZArith List Reals Sorting.Permutation Sorting.Sorted.
+From LP Require Import Num NumR OrdLaws C19_Model C19_Proofs C19_Proofs_Lists C19_Proofs_Stats.
+Import ListNotations.
 
-(** Workload_Distribution(workers,tasks): workers+1 non-decreasing indices from 0 to tasks whose
-    consecutive differences differ by at most one — for every workers >= 1 and every tasks. *)
+(** ** Workload_Distribution(workers,tasks): workers+1 non-decreasing indices from 0 to tasks whose
+    consecutive differences differ by at most one (tasks/workers or one more, the larger ones on the last
+    tasks mod workers workers) — for every workers >= 1 and every tasks; zero workers exit with a diagnostic. *)
 Theorem C19_workload (w t : nat) : (1 <= w)%nat ->
-  let l := workload w t in
+  (exists l, workload w t = Ok l /\
   length l = S w /\ nth 0 l 0 = 0 /\ nth w l 0 = Z.of_nat t /\
+  (forall k, (k <= w)%nat ->
+     nth k l 0 = Z.of_nat k * (Z.of_nat t / Z.of_nat w) + Z.max 0 (Z.of_nat k - (Z.of_nat w - Z.of_nat t mod Z.of_nat w))) /\
   forall k, (k < w)%nat ->
     let d := nth (S k) l 0 - nth k l 0 in
-    (d = Z.of_nat t / Z.of_nat w \/ d = Z.of_nat t / Z.of_nat w + 1) /\ 0 <= d.
+    (d = Z.of_nat t / Z.of_nat w \/ d = Z.of_nat t / Z.of_nat w + 1) /\ 0 <= d)%Z.
 Proof. exact (workload_spec w t). Qed.
 Print Assumptions C19_workload.
+
+Theorem C19_workload_zero_workers (t : nat) : workload 0 t = Exit.
+Proof. exact (workload_zero t). Qed.
+Print Assumptions C19_workload_zero_workers.
+
+(** ** Range(min,max,step): ascending [min, min+step, ...) below max with exactly ceil((max-min)/step) elements,
+    descending when min > max, empty when min = max; the model's fuel suffices ([Some]).  For step <= 0 the
+    ascending loop of the C++ code does not terminate when min < max ([None]; outside the quantifier). *)
+Theorem C19_range_spec (min max step : Z) :
+  ((0 < step -> min < max ->
+     let n := Z.to_nat ((max - min + step - 1) / step) in
+     range min max step = Some (map (fun k => min + Z.of_nat k * step) (seq 0 n)) /\
+     (1 <= n)%nat /\
+     (forall k, (k < n)%nat -> min + Z.of_nat k * step < max) /\
+     max <= min + Z.of_nat n * step) /\
+  (0 < step -> max < min ->
+     let n := Z.to_nat ((min - max + step - 1) / step) in
+     range min max step = Some (map (fun k => min - Z.of_nat k * step) (seq 0 n)) /\
+     (1 <= n)%nat /\
+     (forall k, (k < n)%nat -> max < min - Z.of_nat k * step) /\
+     min - Z.of_nat n * step <= max) /\
+  (min = max -> range min max step = Some []) /\
+  (step <= 0 -> max <= min -> range min max step = Some []) /\
+  (step <= 0 -> min < max -> range min max step = None))%Z.
+Proof. exact (range_spec min max step). Qed.
+Print Assumptions C19_range_spec.
+
+(** ** List templates against the standard list functions *)
+Theorem C19_lists_equal {A : Type} (eqb : A -> A -> bool) :
+  (forall a b, eqb a b = true <-> a = b) ->
+  forall v1 v2 : list A, lists_equal eqb v1 v2 = true <-> v1 = v2.
+Proof. exact (lists_equal_spec eqb). Qed.
+Print Assumptions C19_lists_equal.
+
+Theorem C19_flatten_concat {A : Type} (v : list (list A)) : flatten_list v = concat v.
+Proof. exact (flatten_concat v). Qed.
+Print Assumptions C19_flatten_concat.
+
+Theorem C19_list_contains {A : Type} (eqb : A -> A -> bool) (l : list A) (x : A) :
+  list_contains eqb l x = existsb (fun a => eqb a x) l.
+Proof. exact (list_contains_existsb eqb l x). Qed.
+Print Assumptions C19_list_contains.
+
+Theorem C19_list_contains_In {A : Type} (eqb : A -> A -> bool) :
+  (forall a b, eqb a b = true <-> a = b) ->
+  forall (l : list A) (x : A), list_contains eqb l x = true <-> In x l.
+Proof. exact (list_contains_In eqb). Qed.
+Print Assumptions C19_list_contains_In.
+
+(** Find_Indices: exactly the positions holding x, in increasing order *)
+Theorem C19_find_indices {A : Type} (eqb : A -> A -> bool) (d : A) (l : list A) (x : A) :
+  find_indices eqb l x
+  = map Z.of_nat (filter (fun i => eqb (nth i l d) x) (seq 0 (length l))).
+Proof. exact (find_indices_spec eqb d l x). Qed.
+Print Assumptions C19_find_indices.
+
+Theorem C19_find_indices_In {A : Type} (eqb : A -> A -> bool) :
+  (forall a b, eqb a b = true <-> a = b) ->
+  forall (d : A) (l : list A) (x : A) (i : Z),
+    In i (find_indices eqb l x)
+    <-> ((0 <= i < Z.of_nat (length l))%Z /\ nth (Z.to_nat i) l d = x).
+Proof. exact (find_indices_In eqb). Qed.
+Print Assumptions C19_find_indices_In.
+
+Theorem C19_find_indices_sorted {A : Type} (eqb : A -> A -> bool) (l : list A) (x : A) :
+  StronglySorted Z.lt (find_indices eqb l x).
+Proof. exact (find_indices_sorted eqb l x). Qed.
+Print Assumptions C19_find_indices_sorted.
+
+Theorem C19_combine_app {A : Type} (v1 v2 : list A) : combine_lists v1 v2 = v1 ++ v2.
+Proof. exact (combine_app v1 v2). Qed.
+Print Assumptions C19_combine_app.
+
+(** Sub_List(v,i1,i2): entries i1..i2 for 0 <= i1 <= i2 < n; a negative i1 acts as 0 and i2 >= n as n-1;
+    empty for an empty list, i1 >= n or i2 < i1 *)
+Theorem C19_sub_list {A : Type} (d : A) (v : list A) (i1 i2 : Z) :
+  let n := Z.of_nat (length v) in
+  ((0 <= i1 <= i2)%Z -> (i2 < n)%Z ->
+     sub_list v i1 i2 = firstn (Z.to_nat (i2 - i1 + 1)) (skipn (Z.to_nat i1) v) /\
+     length (sub_list v i1 i2) = Z.to_nat (i2 - i1 + 1) /\
+     forall k, (k < Z.to_nat (i2 - i1 + 1))%nat ->
+       nth k (sub_list v i1 i2) d = nth (Z.to_nat i1 + k) v d) /\
+  ((Z.max 0 i1 <= i2)%Z -> (Z.max 0 i1 < n)%Z ->
+     sub_list v i1 i2 = sub_list v (Z.max 0 i1) (Z.min i2 (n - 1)) /\
+     (0 <= Z.max 0 i1 <= Z.min i2 (n - 1))%Z /\ (Z.min i2 (n - 1) < n)%Z) /\
+  ((n = 0 \/ Z.max 0 i1 >= n \/ i2 < Z.max 0 i1)%Z -> sub_list v i1 i2 = []).
+Proof. exact (sub_list_spec d v i1 i2). Qed.
+Print Assumptions C19_sub_list.
+
+(** Transpose_Lists: rectangular non-empty input -> entry (j,i) = entry (i,j), shape swapped; ragged -> exit;
+    the empty list of lists -> the empty list *)
+Theorem C19_transpose {A : Type} (d : A) (lists : list (list A)) :
+  (forall l0 rest, lists = l0 :: rest ->
+     let m := length l0 in
+     Forall (fun l => length l = m) lists ->
+     exists t, transpose_lists d lists = Ok t /\ length t = m /\
+       (forall j, (j < m)%nat -> length (nth j t []) = length lists) /\
+       forall i j, (i < length lists)%nat -> (j < m)%nat ->
+         nth i (nth j t []) d = nth j (nth i lists []) d) /\
+  (forall l0 rest, lists = l0 :: rest ->
+     (exists l, In l rest /\ length l <> length l0) -> transpose_lists d lists = Exit) /\
+  (lists = [] -> transpose_lists d lists = Ok []).
+Proof. exact (transpose_spec d lists). Qed.
+Print Assumptions C19_transpose.
+
+Theorem C19_transpose_exit_iff {A : Type} (d : A) (lists : list (list A)) :
+  transpose_lists d lists = Exit
+  <-> exists l0 rest, lists = l0 :: rest /\ exists l, In l rest /\ length l <> length l0.
+Proof. exact (transpose_exit_iff d lists). Qed.
+Print Assumptions C19_transpose_exit_iff.
+
+(** ** Locate_Closest_Location: for a sorted non-empty list the returned index is in range and its element
+    is nearest to the target (ties, targets below the first and above the last element included);
+    empty and unsorted lists exit. *)
+Theorem C19_is_sorted (l : list R) :
+  is_sorted ROps l = true
+  <-> forall i j, (i <= j < length l)%nat -> (nth i l 0 <= nth j l 0)%R.
+Proof. exact (is_sorted_spec l). Qed.
+Print Assumptions C19_is_sorted.
+
+Theorem C19_closest_location (l : list R) (t : R) :
+  l <> [] -> is_sorted ROps l = true ->
+  exists i, closest_location ROps l t = Ok i /\
+    (0 <= i < Z.of_nat (length l))%Z /\
+    forall j, (j < length l)%nat -> (Rabs (nth (Z.to_nat i) l 0 - t) <= Rabs (nth j l 0 - t))%R.
+Proof. exact (closest_location_spec l t). Qed.
+Print Assumptions C19_closest_location.
+
+Theorem C19_closest_location_exit {T : Type} (Ops : NumOps T) (l : list T) (t : T) :
+  closest_location Ops l t = Exit <-> l = [] \/ is_sorted Ops l = false.
+Proof. exact (closest_location_exit_iff Ops l t). Qed.
+Print Assumptions C19_closest_location_exit.
+
+Theorem C19_unsorted (l : list R) :
+  is_sorted ROps l = false <-> exists k, (S k < length l)%nat /\ (nth (S k) l 0 < nth k l 0)%R.
+Proof. exact (is_sorted_false_spec l). Qed.
+Print Assumptions C19_unsorted.
+
+(** the same search over any number type whose comparison is a strict total order (no law of arithmetic:
+    holds verbatim for non-NaN doubles): the returned index is adjacent to the partition point of the target *)
+Theorem C19_closest_location_ord {T : Type} (Ops : NumOps T) : OrdLaws Ops -> forall (l : list T) (t : T),
+  l <> [] -> is_sorted Ops l = true ->
+  exists i, closest_location Ops l t = Ok i /\
+    (0 <= i < Z.of_nat (length l))%Z /\
+    (forall k, (k < Z.to_nat i)%nat -> nltb Ops t (nth k l (n0 Ops)) = false) /\
+    (forall k, (Z.to_nat i < k < length l)%nat -> nltb Ops t (nth k l (n0 Ops)) = true).
+Proof. exact (closest_location_bracket_ord Ops). Qed.
+Print Assumptions C19_closest_location_ord.
+
+Local Open Scope R_scope.
+(** ** Linear_Space / Log_Space *)
+Theorem C19_linear_space (mn mx : R) (steps : nat) :
+  (2 <= steps)%nat -> mn <> mx ->
+  let l := linear_space ROps mn mx steps in
+  let h := (mx - mn) / (INR steps - 1) in
+  length l = steps /\
+  nth 0 l 0 = mn /\
+  nth (steps - 1) l 0 = mx /\
+  (forall k, (k < steps)%nat -> nth k l 0 = mn + INR k * h) /\
+  (forall k, (S k < steps)%nat -> nth (S k) l 0 - nth k l 0 = h) /\
+  (mn < mx -> forall i j, (i < j < steps)%nat -> nth i l 0 < nth j l 0) /\
+  (mx < mn -> forall i j, (i < j < steps)%nat -> nth j l 0 < nth i l 0).
+Proof. exact (linear_space_spec mn mx steps). Qed.
+Print Assumptions C19_linear_space.
+
+Theorem C19_linear_space_degenerate (mn mx : R) (steps : nat) :
+  (steps < 2)%nat \/ mn = mx -> linear_space ROps mn mx steps = [mn].
+Proof. exact (linear_space_degenerate mn mx steps). Qed.
+Print Assumptions C19_linear_space_degenerate.
+
+Theorem C19_log_space (mn mx : R) (steps : nat) :
+  0 < mn -> 0 < mx -> mn <> mx -> (2 <= steps)%nat ->
+  let l := log_space ROps mn mx steps in
+  let h := (ln mx - ln mn) / (INR steps - 1) in
+  length l = steps /\
+  nth 0 l 0 = mn /\
+  nth (steps - 1) l 0 = mx /\
+  (forall k, (k < steps)%nat -> 0 < nth k l 0) /\
+  (forall k, (k < steps)%nat -> nth k l 0 = exp (ln mn + INR k * h)) /\
+  (forall k, (k < steps)%nat -> ln (nth k l 0) = ln mn + INR k * h) /\
+  (forall k, (S k < steps)%nat -> ln (nth (S k) l 0) - ln (nth k l 0) = h) /\
+  (forall k, (S k < steps)%nat -> nth (S k) l 0 / nth k l 0 = exp h) /\
+  (mn < mx -> forall i j, (i < j < steps)%nat -> nth i l 0 < nth j l 0) /\
+  (mx < mn -> forall i j, (i < j < steps)%nat -> nth j l 0 < nth i l 0).
+Proof. exact (log_space_spec mn mx steps). Qed.
+Print Assumptions C19_log_space.
+
+Theorem C19_log_space_degenerate (mn mx : R) (steps : nat) :
+  (steps < 2)%nat \/ mn = mx -> log_space ROps mn mx steps = [mn].
+Proof. exact (log_space_degenerate mn mx steps). Qed.
+Print Assumptions C19_log_space_degenerate.
+
+(** ** Summary statistics under translation, scaling and permutation *)
+Theorem C19_mean_translate (c : R) (l : list R) :
+  l <> [] -> arithmetic_mean ROps (map (fun x => x + c) l) = arithmetic_mean ROps l + c.
+Proof. exact (mean_translate c l). Qed.
+Print Assumptions C19_mean_translate.
+
+Theorem C19_mean_scale (a : R) (l : list R) :
+  arithmetic_mean ROps (map (fun x => a * x) l) = a * arithmetic_mean ROps l.
+Proof. exact (mean_scale a l). Qed.
+Print Assumptions C19_mean_scale.
+
+Theorem C19_variance_translate (c : R) (l : list R) :
+  variance ROps (map (fun x => x + c) l) = variance ROps l.
+Proof. exact (variance_translate c l). Qed.
+Print Assumptions C19_variance_translate.
+
+Theorem C19_variance_scale (a : R) (l : list R) :
+  variance ROps (map (fun x => a * x) l) = a * a * variance ROps l.
+Proof. exact (variance_scale a l). Qed.
+Print Assumptions C19_variance_scale.
+
+Theorem C19_stddev_translate (c : R) (l : list R) :
+  standard_deviation ROps (map (fun x => x + c) l) = standard_deviation ROps l.
+Proof. exact (stddev_translate c l). Qed.
+Print Assumptions C19_stddev_translate.
+
+Theorem C19_stddev_scale (a : R) (l : list R) :
+  standard_deviation ROps (map (fun x => a * x) l) = Rabs a * standard_deviation ROps l.
+Proof. exact (stddev_scale a l). Qed.
+Print Assumptions C19_stddev_scale.
+
+Theorem C19_median_translate (c : R) (l : list R) :
+  l <> [] -> median ROps (map (fun x => x + c) l) = median ROps l + c.
+Proof. exact (median_translate c l). Qed.
+Print Assumptions C19_median_translate.
+
+(* stated for every real factor (the property asks for a > 0) *)
+Theorem C19_median_scale (a : R) (l : list R) :
+  median ROps (map (fun x => a * x) l) = a * median ROps l.
+Proof. exact (median_scale_all a l). Qed.
+Print Assumptions C19_median_scale.
+
+(** the sort the median relies on (specification of std::nth_element's visible effect): sorted, a permutation
+    of the input, and a function of the multiset only *)
+Theorem C19_sort_list_sorted (l : list R) : StronglySorted Rle (sort_list ROps l).
+Proof. exact (sort_list_strongly_sorted l). Qed.
+Print Assumptions C19_sort_list_sorted.
+
+Theorem C19_sort_list_perm (l : list R) : Permutation (sort_list ROps l) l.
+Proof. exact (sort_list_perm l). Qed.
+Print Assumptions C19_sort_list_perm.
+
+Theorem C19_sort_list_perm_invariant (l l' : list R) :
+  Permutation l l' -> sort_list ROps l = sort_list ROps l'.
+Proof. exact (sort_list_perm_invariant l l'). Qed.
+Print Assumptions C19_sort_list_perm_invariant.
+
+Theorem C19_mean_perm (l l' : list R) :
+  Permutation l l' -> arithmetic_mean ROps l = arithmetic_mean ROps l'.
+Proof. exact (mean_perm l l'). Qed.
+Print Assumptions C19_mean_perm.
+
+Theorem C19_variance_perm (l l' : list R) :
+  Permutation l l' -> variance ROps l = variance ROps l'.
+Proof. exact (variance_perm l l'). Qed.
+Print Assumptions C19_variance_perm.
+
+Theorem C19_stddev_perm (l l' : list R) :
+  Permutation l l' -> standard_deviation ROps l = standard_deviation ROps l'.
+Proof. exact (stddev_perm l l'). Qed.
+Print Assumptions C19_stddev_perm.
+
+Theorem C19_median_perm (l l' : list R) :
+  Permutation l l' -> median ROps l = median ROps l'.
+Proof. exact (median_perm l l'). Qed.
+Print Assumptions C19_median_perm.
+
+(** ** Weighted_Average with equal weights w > 0: (arithmetic mean, s / sqrt N) *)
+Theorem C19_weighted_equal_weights (w : R) (d : list (R * R)) :
+  0 < w -> (2 <= length d)%nat -> (forall p, In p d -> snd p = w) ->
+  weighted_average ROps d =
+  (arithmetic_mean ROps (map fst d), standard_deviation ROps (map fst d) / sqrt (INR (length d))).
+Proof. exact (weighted_equal_weights w d). Qed.
+Print Assumptions C19_weighted_equal_weights.
